@@ -62,9 +62,9 @@ CLAIMS.update({
     "C06": dict(text="Proof: C06_wire_exact (for every well-formed rule data the fixed-offset UAPI reader recovers list, action, count, mask, the triples in order with zero fill, buflen and the strings back to back), C06_accepted_rules_are_well_formed / C06_accepted_rules_decode (every rule the Build model accepts yields such data, so this holds for the bytes of every accepted rule), C06_tables_are_uapi and C06_layout (generated tables/offsets equal the UAPI constants by name), C06_mask_exact / C06_mask_range (exactly the requested bits). "
                      "The independent checker chk_C06 decodes the bytes of the real Build for every generated rule and compares them with what the rule asks for in UAPI numbers.",
                 note=RULE_NOTE + " PARTIAL: addFilter's per-field value parsers (strconv spellings, errno and message type names) are exercised by correspondence, not proved.", technique="Coq proof of the wire codec against a UAPI reader + generated-table obligations + correspondence", design="6 C06"),
-    "C07": dict(text="Proof: C07_round_trip_a_form - for every parsed line that the Build model accepts and that ToCommandLine prints in the -a form (values without blanks, the known finding excluded), ToCommandLine succeeds on the wire form, its text split at blanks is read by flags.Parse and built into the very same rule data, hence byte-identical wire data and the same text again; built from per-layer theorems (value codecs C07_values_read_back for every field class incl. errno names, all 65536 record types, arch abbreviations; the -F/-C scanners; syscall names against the arch in force; C07_mask_read_back; decode of encode). "
-                     "The models of ToCommandLine, of the value parsers and of Build-from-text are tied to the implementation on every generated rule (text equality, value words, bytes). The -w form is decided per generated rule by the checker. Three more defects were found while proving (two repaired, one recorded as known finding 103).",
-                note=RULE_NOTE + " PARTIAL: no theorem for rules printed in the -w form (path/dir + perm [+ key]); those are decided per generated rule. shellquote.Split is modelled as blank-splitting (lines without quotes).", technique="Coq proof of the text round trip on the model (all rules in the -a form) + correspondence of every modelled stage + round-trip run on the implementation", design="6 C07"),
+    "C07": dict(text="Proof: C07_round_trip - for every parsed line (-a/-A syscall rule or -w file watch) that the Build model accepts within the property's domain (values without blanks, filesystem agreeing with a watch-shaped rule, known finding 103 excluded), ToCommandLine succeeds on the wire form, its text split at blanks is read by flags.Parse and built into the very same rule data, hence byte-identical wire data and the same text again; both print forms (-a and -w) are covered. Built from per-layer theorems: value codecs for every field class (C07_values_read_back: errno names, all 65536 record types, arch abbreviations, uid/gid sign, perm letters), the -F/-C scanners, syscall names against the arch in force, C07_mask_read_back, decode of encode, blank-splitting of the printed line. "
+                     "The models of ToCommandLine, of the value parsers and of Build-from-text are tied to the implementation on every generated rule (text equality, value words, bytes, and the model's own way back). Three more defects were found while proving (two repaired, one recorded as known finding 103).",
+                note=RULE_NOTE + " shellquote.Split is modelled as blank-splitting (lines without quotes or backslashes: the property's domain); os.Stat and the user database are oracles (stat is a parameter of the theorem).", technique="Coq proof of the whole text round trip on the model (all rules, both print forms) + correspondence of every modelled stage + round-trip run on the implementation", design="6 C07"),
     "C13": dict(text="Proof: C13_decode_total (for every byte slice the decoder model, with every slice expression, array index and allocation explicit, never panics), C13_success_valid (success implies field count <= 64 and the buffer inside the slice, so allocations are bounded by 64 whatever the input claims), C13_mask_total (every syscall number is set or rejected). "
                      "The harness replaces each header word of valid rules by boundary values, truncates, and feeds extreme Rule values and arbitrary lines; panics and allocations above 64 MiB are violations. Three panics of the pinned tree were repaired.",
                 note=RULE_NOTE + " PARTIAL: Build's value parsers, shellquote and flag internals are exercised, not modelled, for panics.", technique="Coq totality proof of the decoder/mask model + boundary-value correspondence", design="6 C13"),
